@@ -65,7 +65,7 @@ type Ether []byte
 
 func (p Ether) IsValid() error {
 	// Minimum len to contain two hardware address and EtherType (2 bytes) + 1 byte payload
-	if len(p) >= EthHeaderLen {
+	if len(p) >= EthHeaderLen && len(p) >= p.HeaderLen() { // 802.1Q / 802.1ad: the tag(s) must be present
 		return nil
 	}
 	return fmt.Errorf("ethernet frame too short len=%d: %w", len(p), ErrFrameLen)
